@@ -15,6 +15,7 @@ import (
 	"bytes"
 	stdjson "encoding/json"
 	"fmt"
+	"math"
 	"reflect"
 	"strings"
 	"time"
@@ -300,6 +301,39 @@ func c06Extra(c *Ctx) {
 			}
 		}
 	}
+	// special-cased value types at their extremes: durations (written as quoted strings, formatted by hand), times
+	durs := []time.Duration{0, 1, -1, math.MaxInt64, math.MinInt64, math.MinInt64 + 1, -1000000*time.Hour - 10*time.Minute - 10*time.Second - 1,
+		1000000*time.Hour + 10*time.Minute + 10*time.Second + 1, -time.Hour, 999 * time.Millisecond, -999 * time.Microsecond, 59*time.Minute + 59*time.Second}
+	for i, d := range durs {
+		for _, root := range []any{d, &d, struct{ D time.Duration }{d}, map[string]time.Duration{"d": d}, []time.Duration{d, -d}, struct{ P *time.Duration }{&d}} {
+			c.Case()
+			c06Marshal(c, c06Case{Kind: "duration", Chain: i}, root, false)
+		}
+		// the quoted string comes back as the same duration
+		if b, err := json.Marshal(d); err == nil {
+			var back time.Duration
+			if p, _ := guarded(func() { err = json.Unmarshal(b, &back) }); p != "" || err != nil || back != d {
+				c.Diverge("C06", "json.Unmarshal(Marshal(duration))", d.String(), fmt.Sprintf("%v err=%v %s (text %s)", back, err, p, b), "", c06Case{Kind: "duration", Chain: i})
+			}
+		}
+	}
+	for i, t := range []time.Time{{}, time.Unix(0, 0).UTC(), time.Date(9999, 12, 31, 23, 59, 59, 999999999, time.UTC), time.Date(0, 1, 1, 0, 0, 0, 0, time.UTC),
+		time.Date(10000, 1, 1, 0, 0, 0, 0, time.UTC), time.Date(-1, 1, 1, 0, 0, 0, 0, time.UTC), time.Date(2020, 2, 29, 12, 0, 0, 1, time.FixedZone("x", -23*3600-59*60)),
+		time.Date(2020, 2, 29, 12, 0, 0, 0, time.FixedZone("y", 24*3600))} {
+		tt := t
+		for _, root := range []any{tt, &tt, struct{ T time.Time }{tt}, map[string]any{"t": tt}} {
+			c.Case()
+			for _, byPtr := range []bool{false, true} {
+				x := root
+				if byPtr {
+					x = &root
+				}
+				if p, hung := guarded(func() { json.Marshal(x); json.Append(nil, x, 0) }); p != "" || hung {
+					c.Diverge("C06", "json.Marshal(time)", "a returned error at worst", fmt.Sprintf("%s hung=%v", p, hung), "", c06Case{Kind: "time", Chain: i})
+				}
+			}
+		}
+	}
 	// nesting depths 10^2 .. 10^7
 	depths := []int{100, 9999, 10000, 10001, 100000, 1000000}
 	if c.Tier == "thorough" {
@@ -337,7 +371,7 @@ func c06Replay(c *Ctx, raw stdjson.RawMessage) {
 		c06Cycle(c, &cycleVec{Edges: k.Edges, Cyclic: &cy})
 	case k.Kind == "chain" || k.Kind == "struct-chain":
 		c06Chain(c, k.Chain, k.Via, k.Cyclic)
-	case strings.HasPrefix(k.Kind, "deep:"):
+	case strings.HasPrefix(k.Kind, "deep:"), k.Kind == "duration", k.Kind == "time":
 		c06Extra(c)
 	case k.Kind == "doc":
 		c06Decode(c, k, []byte(k.Doc))
